@@ -21,7 +21,7 @@ def constants():
     if _consts:
         return _consts
     f = common.scratch() / "print.cfg"
-    f.write_text("SPECIFICATION Spec\nCONSTANTS\n  WL <- WL_two\n  Cfg <- Cfg_long\n  MaxTick = 0\n  MaxAsg = 1\n  MaxOps = 1\n  CpuChoices = {1}\n  RamChoices = {1}\n  PoolChoices = {1}\n  CollapseCrash = TRUE\n  Admissible = FALSE\n")
+    f.write_text("SPECIFICATION Spec\nCONSTANTS\n  WL <- WL_two\n  Cfg <- Cfg_long\n  MaxTick = 0\n  MaxAsg = 1\n  MaxOps = 1\n  CpuChoices = {1}\n  RamChoices = {1}\n  PoolChoices = {1}\n  CollapseCrash = TRUE\n  Admissible = FALSE\n  CrossPipe = FALSE\n")
     r = common.run_tlc("MC_ExecPrint", f, workers=1, timeout=300, heap="2g")
     for t in tlaval.find_tuples(r.out, "CONST"):
         _consts[t[1]] = {"wl": t[2], "cfg": t[3]}
